@@ -600,11 +600,16 @@ func c22SeqCases(thorough bool) (hs []c22HCase, ps []c22PCase) {
 		c.BodyN = bodies[c.Body].Name
 		hs = append(hs, c)
 	}
-	const b200, b201, b4k = 3, 4, 5
-	// (1) every Accept-Encoding value (and the absent header) x the three wrappers x body {201 B, 4 KiB} x mode
+	const bEmpty, b200, b201, b4k = 0, 3, 4, 5
+	// levels that differ in kind: below range, none, fastest, default, best, above range
+	keyLevel := func(lv int) bool { return lv == -5 || lv == -2 || lv == 0 || lv == 1 || lv == 6 || lv == 9 || lv == 12 }
+	// (1) every Accept-Encoding value (and the absent header) x the three wrappers x {201 B x 4 modes, 4 KiB x 2 modes (quick) / 4 modes}
 	for wrap := 0; wrap < 3; wrap++ {
 		for _, body := range []int{b201, b4k} {
 			for mode := 0; mode < 4; mode++ {
+				if !thorough && body == b4k && (mode == 1 || mode == 3) {
+					continue
+				}
 				addH(c22HCase{Wrap: wrap, Level: CompressDefaultCompression, BrLevel: CompressBrotliDefaultCompression, Body: body, Mode: mode})
 				for _, ae := range c22AEs {
 					addH(c22HCase{Wrap: wrap, Level: CompressDefaultCompression, BrLevel: CompressBrotliDefaultCompression, Body: body, HasAE: true, AE: ae, Mode: mode})
@@ -612,24 +617,20 @@ func c22SeqCases(thorough bool) (hs []c22HCase, ps []c22PCase) {
 			}
 		}
 	}
-	// (2) every level x codec (selected by a single-token Accept-Encoding) x body x {buffered, stream-unsized};
-	// the big bodies take only the levels that differ in kind in the quick tier
+	// (2) level x codec (selected by a single-token Accept-Encoding) x body x {buffered, stream-unsized}: all 18 levels
+	// on {200 B, 4 KiB} (every body in the thorough tier), the levels that differ in kind on the others
 	for _, tok := range []string{"gzip", "deflate", "br", "zstd"} {
 		for body := range bodies {
 			for _, lv := range c22Levels {
-				if !thorough && body >= 6 && !(lv == -5 || lv == -2 || lv == 0 || lv == 1 || lv == 6 || lv == 9 || lv == 12) {
+				if !thorough && body != b200 && body != b4k && !keyLevel(lv) {
 					continue
 				}
-				slowBr := tok == "br" && body == 7 && lv >= 10 && lv <= 11
 				for _, mode := range []int{0, 2} {
-					if slowBr && !thorough && mode == 2 {
-						continue
-					}
 					if tok == "br" {
 						addH(c22HCase{Wrap: 2, Level: CompressDefaultCompression, BrLevel: lv, Body: body, HasAE: true, AE: tok, Mode: mode})
 					} else {
 						addH(c22HCase{Wrap: 1, Level: lv, Body: body, HasAE: true, AE: tok, Mode: mode})
-						if body <= b4k || thorough {
+						if body == b4k || thorough {
 							addH(c22HCase{Wrap: 2, Level: lv, BrLevel: CompressBrotliDefaultCompression, Body: body, HasAE: true, AE: tok, Mode: mode})
 						}
 					}
@@ -645,33 +646,46 @@ func c22SeqCases(thorough bool) (hs []c22HCase, ps []c22PCase) {
 			}
 		}
 	}
-	// (4) handler-declared Content-Encoding / Vary / Content-Type x token x mode x body {200 B, 4 KiB}
+	// (4) handler-declared Content-Encoding / Vary / Content-Type x (wrapper, token) x mode x body {200 B, 4 KiB}
+	type wt struct {
+		wrap int
+		tok  string
+	}
+	wts := []wt{{0, "gzip"}, {1, "deflate"}, {1, "zstd"}, {2, "br"}, {2, "gzip, deflate, br, zstd"}}
+	if thorough {
+		wts = nil
+		for wrap := 0; wrap < 3; wrap++ {
+			for _, tok := range []string{"gzip", "deflate", "br", "zstd", "gzip, deflate, br, zstd"} {
+				wts = append(wts, wt{wrap, tok})
+			}
+		}
+	}
 	for _, pre := range []struct{ ce, vary, ct string }{
 		{"gzip", "", ""}, {"br", "", ""}, {"identity", "", ""}, {"x-custom", "", ""}, {"deflate", "Origin", ""},
 		{"", "Origin", ""}, {"", "accept-encoding", ""}, {"", "Accept-Encoding", ""}, {"", "Origin, Accept-Encoding", ""}, {"", "*", ""}, {"", "X-Accept-Encoding", ""},
 		{"", "", "image/png"}, {"", "", "application/json"}, {"", "", "image/svg+xml"}, {"", "", "video/mp4"},
 	} {
-		for wrap := 0; wrap < 3; wrap++ {
-			for _, tok := range []string{"gzip", "deflate", "br", "zstd", "gzip, deflate, br, zstd"} {
-				for _, body := range []int{b200, b4k} {
-					for mode := 0; mode < 4; mode++ {
-						addH(c22HCase{Wrap: wrap, Level: CompressDefaultCompression, BrLevel: CompressBrotliDefaultCompression, Body: body, HasAE: true, AE: tok, Mode: mode,
-							PreCE: pre.ce, PreVary: pre.vary, CT: pre.ct})
-					}
+		for _, w := range wts {
+			for _, body := range []int{b200, b4k} {
+				for mode := 0; mode < 4; mode++ {
+					addH(c22HCase{Wrap: w.wrap, Level: CompressDefaultCompression, BrLevel: CompressBrotliDefaultCompression, Body: body, HasAE: true, AE: w.tok, Mode: mode,
+						PreCE: pre.ce, PreVary: pre.vary, CT: pre.ct})
 				}
 			}
 		}
 	}
-	// codec pairs: codec x level x body x call form, plus the APIs without a level argument
+	// codec pairs: codec x level x body x call form, plus the APIs without a level argument. Quick tier: all 18 levels on
+	// {empty, 201 B, 4 KiB} x {append, io.Writer}; the levels that differ in kind on every body x every form.
 	for ci := range c22Codecs {
 		for body := range bodies {
 			for form := 0; form < 4; form++ {
 				for _, lv := range c22Levels {
-					if !thorough && body >= 6 && !(lv == -5 || lv == -2 || lv == 0 || lv == 1 || lv == 6 || lv == 9 || lv == 12) {
+					full := (body == bEmpty || body == b201 || body == b4k) && (form == 0 || form == 3)
+					if !thorough && !full && !keyLevel(lv) {
 						continue
 					}
-					if !thorough && ci == 2 && body == 7 && lv >= 9 && form != 0 {
-						continue
+					if !thorough && body == 7 && ((form != 0 && form != 3) || !(lv == -5 || lv == 0 || lv == 6 || lv == 12)) {
+						continue // 1 MiB: the two writer paths x {below range, none, default, above range}; other forms: default-level API
 					}
 					ps = append(ps, c22PCase{Part: "P", Codec: ci, Level: lv, Body: body, BodyN: bodies[body].Name, Form: form})
 				}
